@@ -1,7 +1,7 @@
 """C09: notify / free / create on related notes is safe."""
 from checks import e3check
 
-QUICK = ['ns_h_free_adopt_R1', 'notep_freeroot_freechild_R2', 'notep_freechild_freegrand_R2', 'notep_freeroot_freechild_R3']
+QUICK = ['notep_freeroot_freechild_R2', 'ns_h_free_adopt_R1', 'notep_freechild_freegrand_R2', 'notep_freeroot_freechild_R3']   # the first one carries the witness twin in the quick tier (the sequential harness has its twin in the thorough tier: it costs 8 GB / 8 min)
 THOROUGH = ['notep_freechild_freegrand_R3', 'notep_freechild_notifyroot_R2', 'notep_freechild_notifyroot_R3', 'note_freechild_notifyroot_R3']
 scenarios, jobs, confirm, info = e3check.make('C09', QUICK, THOROUGH,
     'SEQUENTIAL HALF: harness/e3/note_seq.c h_free_adopt, one thread, one context - after nsync_note_free(child) the grandchild is adopted by the root (a later notify(root) reaches it), every note can then be '
